@@ -168,17 +168,28 @@ func getCassandraBaseType(name string) Type {
 }
 
 func getCassandraType(name string, logger StdLogger) TypeInfo {
+	return getNestedCassandraType(name, logger, 0)
+}
+
+func getNestedCassandraType(name string, logger StdLogger, depth int) TypeInfo {
+	if depth > maxTypeNesting {
+		// see maxTypeNesting: not a type we can describe
+		logger.Printf("Error parsing type, it nests deeper than %d levels\n", maxTypeNesting)
+		return NativeType{
+			typ: TypeCustom,
+		}
+	}
 	if strings.HasPrefix(name, "frozen<") {
-		return getCassandraType(strings.TrimPrefix(name[:len(name)-1], "frozen<"), logger)
+		return getNestedCassandraType(strings.TrimPrefix(name[:len(name)-1], "frozen<"), logger, depth+1)
 	} else if strings.HasPrefix(name, "set<") {
 		return CollectionType{
 			NativeType: NativeType{typ: TypeSet},
-			Elem:       getCassandraType(strings.TrimPrefix(name[:len(name)-1], "set<"), logger),
+			Elem:       getNestedCassandraType(strings.TrimPrefix(name[:len(name)-1], "set<"), logger, depth+1),
 		}
 	} else if strings.HasPrefix(name, "list<") {
 		return CollectionType{
 			NativeType: NativeType{typ: TypeList},
-			Elem:       getCassandraType(strings.TrimPrefix(name[:len(name)-1], "list<"), logger),
+			Elem:       getNestedCassandraType(strings.TrimPrefix(name[:len(name)-1], "list<"), logger, depth+1),
 		}
 	} else if strings.HasPrefix(name, "map<") {
 		names := splitCompositeTypes(strings.TrimPrefix(name[:len(name)-1], "map<"))
@@ -190,15 +201,15 @@ func getCassandraType(name string, logger StdLogger) TypeInfo {
 		}
 		return CollectionType{
 			NativeType: NativeType{typ: TypeMap},
-			Key:        getCassandraType(names[0], logger),
-			Elem:       getCassandraType(names[1], logger),
+			Key:        getNestedCassandraType(names[0], logger, depth+1),
+			Elem:       getNestedCassandraType(names[1], logger, depth+1),
 		}
 	} else if strings.HasPrefix(name, "tuple<") {
 		names := splitCompositeTypes(strings.TrimPrefix(name[:len(name)-1], "tuple<"))
 		types := make([]TypeInfo, len(names))
 
 		for i, name := range names {
-			types[i] = getCassandraType(name, logger)
+			types[i] = getNestedCassandraType(name, logger, depth+1)
 		}
 
 		return TupleTypeInfo{
